@@ -127,6 +127,9 @@ func OracleC09(tr *Trace) Verdict {
 		}
 		for _, op := range tr.Ops {
 			if op.Obj == a.Obj && op.IssueSeq > a.RetSeq && op.IssueSeq < until && op.IssueT < tr.End {
+				if op.InStopCtxDelete {
+					continue // the look-and-delete of another, concurrent StopWithContext{DeleteKey} call that is still under way
+				}
 				v.Viols = append(v.Viols, Viol{At: op.IssueT, Sig: "C09 store-operation-issued-after-stop kind=" + op.Kind,
 					Msg: fmt.Sprintf("%s: %s returned at %v, yet the instance issued a %s at %v", who, a.Call, a.RetT, op.Kind, op.IssueT)})
 				break
